@@ -133,6 +133,16 @@ func s1Cases(c *vkit.Ctx) []s1Case {
 			add(3, tm, allTuples(3, alphabet), orders[(ti+3)%len(orders)], 1+(ti+1)%3)
 		}
 	}
+	// values of 256 bytes and more, in pairs that coincide when a value's length is kept in one byte: (a^257, a^97) and
+	// (a, a^353) - 97 is 'a' - likewise with 'b' and an empty first value (seeded c06-s11), and long / short swapped
+	{
+		rep := strings.Repeat
+		long := []tuple{{rep("a", 257), rep("a", 97)}, {"a", rep("a", 353)}, {rep("b", 256), rep("b", 98)}, {"", rep("b", 354)},
+			{rep("c", 300), "c"}, {"c", rep("c", 300)}, {rep("d", 65536+100), "d"}, {rep("d", 100), "d"}}
+		t2 := templatesFor(2)
+		add(2, t2[0], long, orders[0], 1)
+		add(2, t2[1%len(t2)], long, orders[1%len(orders)], 2)
+	}
 	// sampled: values outside the alphabet
 	for i := 0; i < c.N(6, 400); i++ {
 		r := c.Rand("s1-extras", i)
